@@ -62,6 +62,7 @@ THEOREMS = {
         "vector_out_allocatable", "vector_inout_buf", "vector_inout_allocatable", "vector_result_buf",
         "vector_result_allocatable", "ptrptr_out", "result_pointer", "result_allocatable", "char_array_in",
         "context_kinds_have_no_cfi_entry", "result_call_clause",
+        "ctx_probe_canonical", "ctx_size_is_product", "implied_type_is_own_declaration", "implied_eval",
     ]]
 }
 
@@ -220,6 +221,34 @@ def gen_description(r, idx):
     if r.random() < 0.3:
         decls.append({"decl": "void arstr(double *x +intent(in)+dimension(..), const char *label)", "options": {"F_assumed_rank_max": 2}})
         feats.append("assumed-rank*char")
+    if r.random() < 0.5 and not NO_CONTEXT[0]:
+        # rank-2 / rank-3 +dimension results and out arguments (context size = product of the extents)
+        rk = r.choice([2, 3])
+        dn = ["n", "m", "k"][:rk]
+        how = r.choice(["+deref(allocatable)", "+deref(pointer)"])
+        decls.append({"decl": "int *grid%d(%s) +dimension(%s)%s" % (rk, ", ".join("int " + d for d in dn), ",".join(dn), how)})
+        decls.append({"decl": "void ogrid%d(%s, %s)" % (rk, ", ".join("int " + d for d in dn), r.choice([
+            "double **p +intent(out)+dimension(%s)" % ",".join(dn), "int *o +intent(out)+deref(allocatable)+dimension(%s)" % ",".join(dn)]))})
+        feats.append("rank%d-dimension-result%s" % (rk, how))
+    if r.random() < 0.6:
+        # implied expressions of every documented form x fortran_generic variants that change rank or type
+        form = r.choice(["type", "size", "len", "arith", "bool"])
+        if form == "type":
+            decls.append({"decl": "void store(void *addr, int type +implied(type(addr)), size_t nitems +implied(size(addr)))",
+                          "fortran_generic": [{"decl": "(%s *addr +rank(%d)+deref(raw)+intent(in))" % (t, rk), "function_suffix": "_%s%dd" % (t, rk)}
+                                              for t, rk in r.sample([("int", 1), ("float", 1), ("double", 1), ("float", 2), ("long", 1)], 3)]})
+        elif form == "size":
+            decls.append({"decl": "int isum(const int *values, int nv +implied(size(values)))",
+                          "fortran_generic": [{"decl": "(const int *values +rank(1))", "function_suffix": "_1d"},
+                                              {"decl": "(const int *values +rank(2))", "function_suffix": "_2d"}]})
+        elif form == "len":
+            decls.append({"decl": "void ltxt(char *text +intent(out)+charlen(20), int ltext +implied(len(text)), int ttext +implied(len_trim(text)), double v)",
+                          "fortran_generic": [dict(g) for g in GEN_FD]})
+        elif form == "arith":
+            decls.append({"decl": "int iar(const int *values +rank(1), int n2 +implied(size(values)*2-1), int n3 +implied((size(values)+1)/2), int w)"})
+        else:
+            decls.append({"decl": "void ibool(double v, bool up +implied(true), bool down +implied(false))", "fortran_generic": [dict(g) for g in GEN_FD]})
+        feats.append("implied-" + form + ("*generic" if form != "arith" else ""))
     opts = {"wrap_python": False, "wrap_lua": False}
     if want_cfi:
         opts["F_CFI"] = True
